@@ -646,4 +646,122 @@ theorem pass_shares (modulus ov sample shift : Nat) (e : Nat) (he : e < 3) :
   have : e = 0 ∨ e = 1 ∨ e = 2 := by omega
   rcases this with rfl | rfl | rfl <;> simp [passShares, sampleShares]
 
+/-! ### the cap of the search: sentinel `MAX_SHIFT + 1` and its rejection (seed `C12d`) -/
+
+/-- **find_smallest_n_cap** — any arithmetic, `Δ ≤ cap`: the search returns either a truncation point `n ∈ [Δ, cap]` that
+meets the criterion `tail(n) ≤ δ` and before which no candidate meets it, or — exactly when NO candidate in `[Δ, cap]`
+meets it — the sentinel `cap + 1`. It never returns `cap` (or anything `≤ cap`) for a parameter set whose tail mass at
+that point is above `δ`. -/
+theorem find_smallest_n_cap {α : Type} (A : Arith α) (cap bigDelta : Nat) (r delta : α) (hd : bigDelta ≤ cap) :
+    let n := findSmallestNCapped A cap bigDelta r delta
+    (n ≤ cap → bigDelta ≤ n ∧ A.le (rightHandSide A n bigDelta r) delta = true ∧
+        ∀ m, bigDelta ≤ m → m < n → A.le (rightHandSide A m bigDelta r) delta = false) ∧
+    (n ≤ cap ∨ n = cap + 1) ∧
+    (n = cap + 1 ↔ ∀ m, bigDelta ≤ m → m ≤ cap → A.le (rightHandSide A m bigDelta r) delta = false) := by
+  intro n
+  have hn : n = (findSmallestN A bigDelta r delta (cap + 1 - bigDelta) bigDelta).getD (cap + 1) := rfl
+  cases hf : findSmallestN A bigDelta r delta (cap + 1 - bigDelta) bigDelta with
+  | none =>
+    rw [hf] at hn
+    simp only [Option.getD_none] at hn
+    have hall : ∀ m, bigDelta ≤ m → m ≤ cap → A.le (rightHandSide A m bigDelta r) delta = false := by
+      intro m h1 h2
+      cases hm : A.le (rightHandSide A m bigDelta r) delta with
+      | false => rfl
+      | true =>
+        obtain ⟨k, hk, _⟩ := findSmallestN_complete A bigDelta r delta (cap + 1 - bigDelta) bigDelta m h1 (by omega) hm
+        rw [hf] at hk; cases hk
+    refine ⟨fun h => by omega, Or.inr hn, fun _ => hall, fun _ => hn⟩
+  | some k =>
+    rw [hf] at hn
+    simp only [Option.getD_some] at hn
+    obtain ⟨h1, h2, h3, h4⟩ := findSmallestN_spec A bigDelta r delta (cap + 1 - bigDelta) bigDelta k hf
+    have hk : k ≤ cap := by omega
+    refine ⟨fun _ => ?_, Or.inl (by omega), ?_⟩
+    · rw [hn]; exact ⟨h1, h3, h4⟩
+    · constructor
+      · intro h; omega
+      · intro h
+        have := h k h1 hk
+        rw [h3] at this; cases this
+
+/-- **oprf_rejects_sentinel** — any arithmetic: if no truncation point up to the cap meets the criterion, `OPRFPaddingDp::new`
+returns an error (`BadShiftValue`, unless an earlier check already failed) — it never hands out a distribution truncated at
+the cap whose tail mass is above `δ`. -/
+theorem oprf_rejects_sentinel {α : Type} (A : Arith α) (cap : Nat) (eps delta : α) (sens : Nat) (r p : α)
+    (hall : ∀ m, sens ≤ m → m ≤ cap → A.le (rightHandSide A m sens r) delta = false) :
+    (∀ n, oprfNew A cap eps delta sens r p ≠ .ok n) ∧
+    (oprfRange A cap eps delta sens = .ok () → A.lt (A.div A.one eps) A.minPos = false →
+      oprfNew A cap eps delta sens r p = .error .badShiftValue) := by
+  unfold oprfNew
+  cases hr : oprfRange A cap eps delta sens with
+  | error e => exact ⟨fun n h => by simp at h, fun h => by cases h⟩
+  | ok u =>
+    have hs : sens ≤ cap := by
+      unfold oprfRange at hr
+      by_cases h1 : A.lt eps A.minPos = true
+      · simp [h1] at hr
+      · by_cases h2 : (A.le A.minPos delta && A.le delta (A.sub A.one A.minPos)) = true
+        · by_cases h3 : sens > cap
+          · simp [h1, h2, h3] at hr
+          · omega
+        · simp [h1, h2] at hr
+    have hsent : findSmallestNCapped A cap sens r delta = cap + 1 :=
+      ((find_smallest_n_cap A cap sens r delta hs).2.2).mpr hall
+    simp only [hsent]
+    unfold truncatedNew
+    by_cases hS : A.lt (A.div A.one eps) A.minPos = true
+    · simp [hS]
+    · simp [hS]
+
+/-- **oprf_accept_meets_delta** — any arithmetic: whenever `OPRFPaddingDp::new` accepts, the shift it hands out is `≤ cap`,
+`≥ Δ`, meets `tail(n) ≤ δ` under the arithmetic's own comparison, and no smaller candidate does. -/
+theorem oprf_accept_meets_delta {α : Type} (A : Arith α) (cap : Nat) (eps delta : α) (sens : Nat) (r p : α) (n : Nat)
+    (h : oprfNew A cap eps delta sens r p = .ok n) :
+    sens ≤ n ∧ n ≤ cap ∧ A.le (rightHandSide A n sens r) delta = true ∧
+      ∀ m, sens ≤ m → m < n → A.le (rightHandSide A m sens r) delta = false := by
+  unfold oprfNew at h
+  cases hr : oprfRange A cap eps delta sens with
+  | error e => rw [hr] at h; cases h
+  | ok u =>
+    rw [hr] at h
+    simp only at h
+    have hs : sens ≤ cap := by
+      unfold oprfRange at hr
+      by_cases h1 : A.lt eps A.minPos = true
+      · simp [h1] at hr
+      · by_cases h2 : (A.le A.minPos delta && A.le delta (A.sub A.one A.minPos)) = true
+        · by_cases h3 : sens > cap
+          · simp [h1, h2, h3] at hr
+          · omega
+        · simp [h1, h2] at hr
+    generalize hk : findSmallestNCapped A cap sens r delta = k at h
+    have hcap := find_smallest_n_cap A cap sens r delta hs
+    simp only [hk] at hcap
+    unfold truncatedNew at h
+    by_cases hS : A.lt (A.div A.one eps) A.minPos = true
+    · simp [hS] at h
+    · by_cases hgt : k > cap
+      · simp [hS, hgt] at h
+      · simp only [hS, hgt] at h
+        cases hdg : doubleGeometricNew A cap (A.div A.one eps) k p with
+        | error e => simp [hdg] at h
+        | ok u =>
+          simp [hdg] at h
+          have hkn : k = n := by omega
+          subst hkn
+          obtain ⟨h1, h2, h3⟩ := hcap.1 (by omega)
+          exact ⟨h1, by omega, h2, h3⟩
+
+/-- the search of seed `C12d`: `(Δ..=MAX_SHIFT).find(…).unwrap_or(MAX_SHIFT)` — "not found" clamped to the cap -/
+def findSmallestNClamped {α : Type} (A : Arith α) (cap bigDelta : Nat) (r smallDelta : α) : Nat :=
+  (findSmallestN A bigDelta r smallDelta (cap + 1 - bigDelta) bigDelta).getD cap
+
+/-- **clamped_search_counterexample** — with a criterion that never holds (tail mass above `δ` at every candidate) the
+clamped search answers `cap`, an admissible shift, where the code answers the sentinel `cap + 1`: "not found" has become
+indistinguishable from "the cap meets the criterion" (`find_smallest_n_cap` fails for it). -/
+theorem clamped_search_counterexample :
+    findSmallestNClamped nanArith 5 1 none (some 0) = 5 ∧ findSmallestNCapped nanArith 5 1 none (some 0) = 6 ∧
+    nanArith.le (rightHandSide nanArith 5 1 none) (some 0) = false := by decide
+
 end IpaVerif.C12
